@@ -20,7 +20,7 @@ RULE = ('operators (+ - * / ** neg ==, reflected with plain numbers), value(unit
         'distinct by (operation, operand kinds and units, follow-up steps)')
 SHARDS = {'quick': 16, 'thorough': 16}
 MIN_NONTRIVIAL = {'quick': 2500, 'thorough': 60000}
-REQUIRED_CLASSES = ['kind:same-dimension-units-in-one-expression', 'reflected-numpy', 'neutral-element-operand', 'op:+', 'op:-', 'op:*', 'op:/', 'op:==', 'op:pow', 'op:neg', 'op:getitem', 'op:value', 'op:ufunc', 'op:func', 'op:builtin-sum', 'both-operands-one-object', 'followup:toq', 'op:value-with-dtype', 'op:value-level-in-linear-unit', 'op:pow-fraction-object',
+REQUIRED_CLASSES = ['write-into-handed-out-array', 'kind:same-dimension-units-in-one-expression', 'reflected-numpy', 'neutral-element-operand', 'op:+', 'op:-', 'op:*', 'op:/', 'op:==', 'op:pow', 'op:neg', 'op:getitem', 'op:value', 'op:ufunc', 'op:func', 'op:builtin-sum', 'both-operands-one-object', 'followup:toq', 'op:value-with-dtype', 'op:value-level-in-linear-unit', 'op:pow-fraction-object',
                     'reflected', 'kind:same-unit', 'kind:other-unit', 'kind:reciprocal', 'kind:nodim', 'kind:log', 'kind:temp',
                     'kind:decimal', 'kind:array', 'kind:uncertain', 'followup:to', 'followup:rebase', 'followup:abse', 'followup:rele',
                     'followup:write', 'followup-on-result', 'followup-on-operand', 'twin-probe', 'repo-tests-under-contracts']
@@ -398,6 +398,23 @@ def _run(case, ctx):
         if res is q:
             devs.append(dev('%s-returns-the-%s-operand-itself' % (opname(op), 'first' if which == 'a' else 'second'),
                             dict(op=op, a=a_spec, b=b_spec)))
+    # ---- (1c) numbers handed out as a NumPy array belong to the caller: editing them in place (v -= v.mean(), v[mask] = 0)
+    #      leaves the operands what they were
+    if isinstance(res, np.ndarray) and res.ndim >= 1 and res.size and not changed:
+        mon['handed_out_array_write_checks'] = 1
+        classes.append('write-into-handed-out-array')
+        try:
+            if res.flags.writeable:
+                res[...] = res * 0 + (7 if res.dtype.kind in 'iu' else 7.5)
+        except Exception:
+            pass
+        for which, q, f0 in (('a', A, fa), ('b', B, fb)):
+            f1 = C.fingerprint(q)
+            if f1 != f0:
+                changed.append(which)
+                devs.append(dev('writing-into-the-array-returned-by-%s-alters-the-%s-operand' % (opname(op), 'first' if which == 'a' else 'second'),
+                                dict(op=op, a=a_spec, b=b_spec, before=C.describe(f0), after=C.describe(f1))))
+        C.take_records()
     # ---- (2) twin differential
     if not changed:
         alt = None
